@@ -12,6 +12,8 @@ verus! {
 //@ fragment schema_view.rs
 //@ fragment seenlist.rs
 //@ fragment checker_spec.rs
+//@ fragment spec_inout.rs
+//@ fragment spec_typesystem.rs
 //@ fragment contract_check_directives.rs
 //@   attr #[verifier::external_body]
 //@ end
@@ -19,26 +21,8 @@ verus! {
 //@   attr #[verifier::external_body]
 //@ end
 
-use crate::nitrogql_ast::type_system::EnumTypeDefinition;
-use crate::nitrogql_semantics::definition_map::DefinitionMap;
-
-pub open spec fn enum_names(e: &EnumTypeDefinition) -> Seq<Seq<char>> {
-    Seq::new(e.values@.len(), |k: int| e.values@[k].name.name@)
-}
-/// the rules for the head of the definition and for its first n values
-pub open spec fn enum_ok_upto(e: &EnumTypeDefinition, d: &DefinitionMap, n: int) -> bool {
-    &&& !reserved(e.name.name@)                                                              // reserved name
-    &&& dirs_valid(&d.type_system, None, e.directives@, "ENUM"@)                             // directives at ENUM
-    &&& nodup(enum_names(e).take(n))                                                         // 3.9: unique value names
-    &&& forall|i: int| 0 <= i < n ==> dirs_valid(&d.type_system, None, (#[trigger] e.values@[i]).directives@, "ENUM_VALUE"@)
-}
-pub open spec fn valid_enum(e: &EnumTypeDefinition, d: &DefinitionMap) -> bool { enum_ok_upto(e, d, e.values@.len() as int) }
-
-//@ contract nitrogql_checker::type_system_checker ::fn check_enum
+//@ fragment contract_check_enum.rs
 //@   unexternal
-//@   ensures [C05.ts_enum.frame] crate::extends_errs(old(result)@, final(result)@)
-//@   ensures [C05.ts_enum.sound] final(result)@.len() == old(result)@.len() ==> crate::valid_enum(enum_def, definitions)
-//@   ensures [C05.ts_enum.complete] crate::valid_enum(enum_def, definitions) ==> final(result)@.len() == old(result)@.len()
 //@   loops 1
 //@   loop 0 iter_name it
 //@   loop 0 invariant [C05.ts_enum.loop.iter] it.seq().len() == enum_def.values@.len() && 0 <= it.index@ <= it.seq().len() && (forall|i: int| 0 <= i < it.seq().len() ==> *it.seq()[i] == enum_def.values@[i])
